@@ -52,6 +52,7 @@ func (l *c17Log) snapshot() []c17Event {
 }
 
 type c17Case struct {
+	stopClaimed atomic.Bool // set by whoever is going to call Stop (the chosen actor or the harness)
 	id        int64
 	log       *c17Log
 	inflight  atomic.Int64
@@ -112,6 +113,9 @@ func (a *c17Actor) Receive(ctx *ReceiveContext) {
 	case *c17StopCmd:
 		// Stop called from inside a handler; this invocation is the caller and is not judged
 		cs := a.cs
+		if !cs.stopClaimed.CompareAndSwap(false, true) {
+			return // the harness already fell back to an external Stop
+		}
 		cs.log.add("stop-called", a.idx, 0)
 		sctx, cancel := context.WithTimeout(context.Background(), 60*time.Second)
 		err := ctx.ActorSystem().Stop(sctx)
@@ -479,6 +483,19 @@ func c17RunCase(t *testing.T, k c17Knobs, seed int64) (obs c17Obs) {
 		if err := Tell(ctx, nodes[caller].pid, new(c17StopCmd)); err != nil {
 			caller = -1
 		}
+	}
+	if caller >= 0 {
+		// the chosen caller may be stopped by the stop traffic before it handles the
+		// command (the command is then dropped with the actor): once the caller is
+		// seen not running with the command still unclaimed, Stop is called from
+		// outside instead
+		pid := nodes[caller].pid
+		verifrt.WaitUntil(20*time.Second, func() bool { return cs.stopClaimed.Load() || !pid.IsRunning() })
+		if !cs.stopClaimed.Load() && cs.stopClaimed.CompareAndSwap(false, true) {
+			caller = -1
+		}
+	} else {
+		cs.stopClaimed.Store(true)
 	}
 	if caller < 0 {
 		cs.log.add("stop-called", -1, 0)
